@@ -606,15 +606,22 @@ pub fn main_chains() {
     let nmuts = vcommon::arg_usize("--muts", 100);
     let mut tr = Trace::create(&out);
     vcommon::quiet_panics();
+    let only = vcommon::arg_usize("--only-case", 0) as u64;
     let mut rng = Rng::from_env();
     let mut case_no = 0u64;
-    for _ in 0..nviews {
+    // every case draws from its own generator (seeded from the run seed and the
+    // case number), so a single case can be re-run with --only-case
+    for i in 0..(nviews + nmuts) {
         case_no += 1;
-        view_chain(&mut tr, &mut rng, case_no);
-    }
-    for _ in 0..nmuts {
-        case_no += 1;
-        mut_case(&mut tr, &mut rng, case_no);
+        let mut crng = Rng::new(rng.next_u64());
+        if only != 0 && only != case_no {
+            continue;
+        }
+        if i < nviews {
+            view_chain(&mut tr, &mut crng, case_no);
+        } else {
+            mut_case(&mut tr, &mut crng, case_no);
+        }
     }
     tr.flush();
     eprintln!("cases={case_no}");
